@@ -29,6 +29,10 @@ def expectations():
 
 def scratch_copy():
     d = tempfile.mkdtemp(prefix="ndi-selftest-")
+    # the seeded changes are diffs against the committed tree: start from HEAD (also immune to a working tree that is being edited)
+    tar = subprocess.run(["git", "-C", REPO, "archive", "HEAD"], capture_output=True)
+    if tar.returncode == 0 and subprocess.run(["tar", "-x", "-C", d], input=tar.stdout).returncode == 0:
+        return d
     files = subprocess.check_output(["git", "-C", REPO, "ls-files"], text=True).split("\n")
     for f in files:
         if not f or f.startswith(("benches/", ".github/")):
